@@ -958,6 +958,16 @@ func (r *Run) judgeRefresh(st Step, rt *Cred, cs *ClientSpec, res *Resp, mutated
 		r.probeGrant(g, "after a refused refresh")
 		return
 	}
+	if r.Fault.fired && !r.Fault.mustRefuse() {
+		// a sentinel answer injected at a read ("this refresh token is inactive / unknown") is judged as that state: the request
+		// then legitimately runs reuse handling (and commits it) or refuses; what a SECOND fault inside that branch does is not
+		// an atomicity question about the issuing transaction
+		if tokens {
+			r.onRefreshSuccess(st, rt, cs, res)
+		}
+		g.Unspec = true
+		return
+	}
 	if faulted {
 		if tokens {
 			if r.Fault.mustRefuse() {
